@@ -37,7 +37,12 @@ pub fn re_num(src: &mut Src, n: &NumLit) -> NumLit {
         let text = *src.pick(&["-0", "-0.0", "-0e0", "-0.0E+1", "0.0", "0e5"]);
         return NumLit { text: text.to_string(), val: if text.starts_with('-') { -0.0 } else { 0.0 }, int_text: false };
     }
-    let (text, int_text) = match src.below(7) {
+    let (text, int_text) = match src.below(10) {
+        // exponents with a sign and leading zeros (`exp = "e" [ "-" / "+" ] 1*DIGIT`)
+        7 => (format!("{}e00", i), false),
+        8 if i != 0 => (format!("{}0E-01", i), false),
+        9 if i % 10 == 0 && i != 0 => (format!("{}e+01", i / 10), false),
+        9 => (format!("{}.0E+000", i), false),
         0 => (i.to_string(), true),
         1 => (format!("{}.0", i), false),
         2 => (format!("{}e0", i), false),
